@@ -66,7 +66,7 @@ def make_cases(rng, tier, budget):
             c0 = dict(base)
             c0["faults"] = []
             obs, st = seq.impl_run(c0, work)
-            cw = [k for k, name, _ in st["mut_log"] if name in ("gzip.open", "gzip.write")]
+            cw = [k for k, name, _, _ph in st["mut_log"] if name in ("gzip.open", "gzip.write")]
             for k in sorted(set(cw[:2] + cw[-2:])):
                 c2 = json.loads(json.dumps(base))
                 c2["faults"] = [k]
